@@ -74,3 +74,22 @@ func init() {
 		return map[string]any{"names": me.VerifPrioritizeDefineArgNames(names), "ts": out}
 	}
 }
+
+func init() {
+	// hash_ops: a hash built by AppendHashVariant from the pairs, and HashReference on every asked key
+	ops["hash_ops"] = func(r req) any {
+		var keys, asks []string
+		json.Unmarshal(r["keys"], &keys)
+		json.Unmarshal(r["asks"], &asks)
+		vals := r.tys("vals")
+		h := base.MakeAnyHash()
+		for i, k := range keys {
+			h.AppendHashVariant(*base.MakeKeyValue(k, vals[i]))
+		}
+		out := []*base.VerifT{}
+		for _, k := range asks {
+			out = append(out, h.HashReference(k).VerifProject())
+		}
+		return map[string]any{"h": h.VerifProject(), "refs": out}
+	}
+}
